@@ -21,6 +21,9 @@ Universe ==
     [] Mode = "enum"   -> {q \in [1..SetSize -> Strs(MaxLen)] : \A a, b \in 1..SetSize : a < b => q[a] # q[b]}
     [] Mode = "class"  -> {q \in [1..SetSize -> NEStrs(MaxLen)] : \A a, b \in 1..SetSize : a < b => q[a] # q[b]}
     [] Mode = "ops"    -> {q \in [1..SetSize -> NEStrs(MaxLen)] : \A a, b \in 1..SetSize : a < b => q[a] # q[b]}
+    [] Mode = "allof"  -> [par : {q \in [1..SetSize -> Strs(MaxLen)] : \A a, b \in 1..SetSize : a < b => q[a] # q[b]},
+                           own : Strs(MaxLen)]
+    [] Mode = "nested" -> [1..2 -> Strs(MaxLen)]
     [] Mode = "param"  -> {q \in [1..SetSize -> [loc : ParamLocs, name : NEStrs(MaxLen)]] :
                               /\ \A a, b \in 1..SetSize : a < b => LocIdx(q[a].loc) <= LocIdx(q[b].loc)
                               /\ \A a, b \in 1..SetSize : a # b => <<q[a].loc, q[a].name>> # <<q[b].loc, q[b].name>>}
@@ -88,6 +91,36 @@ ClassOk == /\ Injective([k \in 1..Len(ClassGen) |-> ClassGen[k].mod])
 EmitClass == (Mode = "class" /\ done /\ (EmitJson \/ ~ClassOk)) =>
    PrintT(ToJson([i |-> inp, cls |-> [k \in 1..Len(ClassOut) |-> ClassOut[k].cls], mod |-> [k \in 1..Len(ClassOut) |-> ClassOut[k].mod],
                   dup |-> [k \in 1..Len(ClassOut) |-> ClassOut[k].dup], ok |-> ClassOk]))
+
+\* ------------------------------------------------------------------ attributes of an allOf-composed model
+\* child = allOf[ref parent, inline member]: the parent's property OBJECTS (with their resolved python names) are added
+\* first, then the member's own property; a redefinition refining the type (string -> date) is rebuilt from the new
+\* definition, i.e. it restarts from the default python name and goes through the conflict loop again.
+AllofPar == AttrRun(inp.par, 1, <<>>, FieldPrefix)
+\* _process_models retries a failed model in the next round when the round made progress (the parent succeeded);
+\* the parent's property objects were renamed in place by the failed attempt, so the retry sees other names.
+AllofTry1 == AttrAdd(AllofPar.ps, inp.own, FieldPrefix)
+AllofOut == IF AllofPar.err THEN [ps |-> <<>>, err |-> TRUE]
+            ELSE IF ~AllofTry1.err THEN AllofTry1
+            ELSE AttrAdd(SelectSeq(AllofTry1.ps, LAMBDA o : o.name # inp.own \/ inp.own \in {inp.par[k] : k \in 1..Len(inp.par)}), inp.own, FieldPrefix)
+AllofPys == [k \in 1..Len(AllofOut.ps) |-> AllofOut.ps[k].py]
+AllofOk == AllofOut.err \/ (Injective(AllofPys) /\ \A k \in 1..Len(AllofPys) : ValidIdent(AllofPys[k]))
+N2Allof == (Mode = "allof" /\ done) => AllofOk
+EmitAllof == (Mode = "allof" /\ done /\ (EmitJson \/ ~AllofOk)) =>
+   PrintT(ToJson([par |-> inp.par, own |-> inp.own, perr |-> AllofPar.err, err |-> AllofOut.err,
+                  names |-> [k \in 1..Len(AllofOut.ps) |-> AllofOut.ps[k].name], py |-> AllofPys, ok |-> AllofOk]))
+
+\* ------------------------------------------------------------------ inline classes nested in a component (ClassScope, depth 2)
+\* component A { p1: object { p2: object {...} } }: class names A, A+Pascal(p1), A+Pascal(p1)+Pascal(p2); an inline class
+\* whose derived name equals an enclosing class must be diagnosed ("duplicate models"), never overwrite it.
+NestA == <<"A">>
+Nest1 == ClassName(Pascal(NestA) \o Pascal(inp[1]), FieldPrefix)
+Nest2 == ClassName(Pascal(Nest1) \o Pascal(inp[2]), FieldPrefix)
+NestDup == Nest1 = NestA \/ Nest2 = Nest1 \/ Nest2 = NestA
+NestMods == << PyId(NestA, FieldPrefix, FALSE), PyId(Nest1, FieldPrefix, FALSE), PyId(Nest2, FieldPrefix, FALSE) >>
+NestOk == NestDup \/ (Injective(NestMods) /\ ValidIdent(Nest1) /\ ValidIdent(Nest2))
+EmitNested == (Mode = "nested" /\ done /\ (EmitJson \/ ~NestOk)) =>
+   PrintT(ToJson([i |-> inp, cls |-> <<NestA, Nest1, Nest2>>, mod |-> NestMods, dup |-> NestDup, ok |-> NestOk]))
 
 \* ------------------------------------------------------------------ one tag's operations (ModuleScope)
 \* Project._build_api: file name = PythonIdentifier(endpoint.name); NO collision check exists in the code.
